@@ -1,4 +1,4 @@
-from harness.common import Prop, canon, use_repo_src
+from harness.common import Prop, canon, use_repo_src, scale
 from harness import gen_models as M
 from harness.gen_text import err_tag
 import json
@@ -14,7 +14,7 @@ class C16(Prop):
                   'repeated process() or >=2 instances; distinct = distinct history')
 
     def streams(self, rng, tier):
-        n = 150 if tier == 'quick' else 5000
+        n = 150 if tier == 'quick' else scale(15000)
         hs = []
         d0 = M.enc_root([{'k': 'component', 'name': ['C'], 'ports': []}, {'k': 'enum', 'name': ['E'], 'fields': ['a']}])
         hs.append({'op': 'c16', 'docs': [d0], 'ops': [['new', 0, 0], ['process', 0], ['process', 0]]})
